@@ -79,6 +79,14 @@ def cases(draw, convs=S.ALL_CONVS):
     for dc in spec["depths"]:
         if dc["name"] == dc["dim"]:
             dc["as"] = "coord"
+    if conv not in DEPTH_NAMES and draw(st.integers(0, 3)) == 0:
+        # the same levels described a second time on the same dimension, as elevation instead
+        # of depth (or the other way round): opposite sign convention, negated values
+        first = spec["depths"][0]
+        twin = dict(first, name="elevation", values=[-v for v in first["values"]],
+                    positive="up" if first["positive"] == "down" else "down", **{"as": "var"})
+        twin.pop("bounds", None)
+        spec["depths"].append(twin)
     extra = {dc["dim"]: len(dc["values"]) for dc in spec["depths"]}
     with_time = draw(st.booleans())
     tname, tdim = TIME_NAMES.get(conv, ("time", "time"))
@@ -94,8 +102,13 @@ def cases(draw, convs=S.ALL_CONVS):
     shapes = specs.grid_shapes(spec)
     kinds = list(shapes)
     floors = {}
+    by_dim = {}
     for dc in spec["depths"]:
         nz = len(dc["values"])
+        if dc["dim"] in by_dim:
+            floors[dc["name"]] = floors[by_dim[dc["dim"]]]      # same levels, same sea floor
+            continue
+        by_dim[dc["dim"]] = dc["name"]
         floors[dc["name"]] = {}
         for kind in kinds:
             size = refmodel.grid_size(spec, kind)
@@ -106,7 +119,7 @@ def cases(draw, convs=S.ALL_CONVS):
     variables = []
     for k in range(draw(st.integers(2, 4))):
         kind = draw(st.sampled_from(kinds))
-        dc = draw(st.sampled_from(spec["depths"]))
+        dc = draw(st.sampled_from([d for d in spec["depths"] if d["name"] != "elevation"]))
         dims = [dc["dim"]] + [f"@{q}" for q in range(n_grid)]
         if with_time and draw(st.booleans()):
             dims.append(tdim)
@@ -223,6 +236,8 @@ def check_case(case, ctx):
             if len(set(counts)) >= 3 and 0 in counts and nz in counts:
                 rich = True
     ctx.label(f"depth_coordinates:{len(spec['depths'])}")
+    if len({dc["dim"] for dc in spec["depths"]}) < len(spec["depths"]):
+        ctx.label("two_coordinates_on_one_dimension")
     ctx.nontrivial(rich and not_leading)
 
 
